@@ -351,6 +351,12 @@ def _run_main(prog, tier):
         res_key = st_keys[0] if len(st_keys) == 1 else ("pdf[g]" if what == "pdf" else "cdf[g]")
         gotv = env.get(res_key)
         syms = {a for a in gotv.all_atoms() if a[0] == "sym"} if isinstance(gotv, R) else set()
+        clamped = [a for a in syms if a[1].startswith("x<entries")]
+        if clamped:
+            obs.append(struct_ob("kernel-form", qual(ci, fn), False,
+                                 f"the query points are overwritten before the kernel sum ({clamped[0][1][:120]}): the estimate is then "
+                                 f"evaluated at other points than the caller's", REL, fn.lineno))
+            continue
         xa = [a for a in syms if a[1].startswith("x[") or a[1] == "x"]
         sa_ = [a for a in syms if a[1].startswith("self.sample[")]
         if len(xa) != 1 or len(sa_) != 1:
